@@ -37,7 +37,7 @@ var readOnlyMethodNames = map[string]bool{
 
 var allowedImports = map[string]bool{
 	"bytes": true, "encoding/binary": true, "errors": true, "fmt": true, "math": true, "reflect": true,
-	"strings": true, "unsafe": true,
+	"strings": true, "strconv": true, "unsafe": true,
 }
 
 func siteStr(p *core.Prog, s effects.Site) string {
